@@ -202,3 +202,36 @@ PROPS['C07'] = dict(
     level_text='Proof for N-Triples in N-Quads over all inputs and reader endings (C07_nt_subset_nq); exploration by differential decoding for N-Triples in Turtle/TriG and Turtle in TriG.',
     level_note='No defect found by this check itself; the Turtle/TriG fixes recorded under C08/C15/C16 apply to both decoders.',
 )
+
+_TTL_TOK = ('model-backed token level, eight correspondences on strings drawn from alphabets that stress each class (first/last-position rules, every PN_LOCAL_ESC character, PLX, U+00B7/combining/U+203F, controls, quotes, backslashes, surrogate and out-of-range escapes, signs/dots/exponents): '
+            'format_PN_LOCAL, formatLiteralLexicalForm and formatIRI (plain and ASCII) through turtle.NewTermFormatter, literalShorthandDatatype through the encoder, and the decoder\'s PN_LOCAL, string (four quote styles), numeric and IRIREF scanners observed through the object of a one-statement document')
+
+PROPS['C02'] = dict(
+    families=[dict(name='c02-turtle', quick=8000, thorough=400000), dict(name='c02-tokens', quick=40000, thorough=1500000)],
+    slice=40,
+    rule='graphs of up to 6 triples plus an rdf:first/rdf:rest list (well-formed, typed rdf:List, malformed, shared), shared blank nodes and cycles; IRIs = 8 namespaces x 50 local parts (leading/trailing/double dots, "-", digits, "%", ":", every sub-delim, U+00B7, combining marks, U+00D7, non-BMP, empty) and RFC 3987 IRIs from the C12 generator; '
+         'literals of 14 XSD datatypes with valid lexical forms ("+1.", ".5", "1.e1", "INF", "007", xsd:long "5", xsd:boolean "1"), language tags with up to nine subtags, strings with controls/quotes/non-BMP; '
+         'x base (none, document, directory, with fragment, urn) x subsets of 8 prefixes (incl. empty prefix and "p.q") x buffered x resources mode (rdfdescription export) x directive mode (@, SPARQL, disabled) x labeller; '
+         'encoded, decoded with the same base/prefixes as defaults, compared up to blank node renaming. Excluded as not writable in Turtle: IRIs with dot segments (RFC 3986 5.2.2 removes them from any IRIREF) and with a percent-encoded octet in the authority (finding F25). ' + _TTL_TOK,
+    trusted_base=['model/TurtleTok.v mirrors format_prefix_local_name.go, format_literal.go, format_iri.go and the four decoder_produce_*.go scanners, over runes',
+                  'the structure of the encoder (predicate/object lists, nested resources, list syntax, directives) is not modelled: it is decided by the round-trip family'],
+    assumptions=['Go strings converted to []rune contain scalar values only (invalid UTF-8 becomes U+FFFD before the formatter sees it)',
+                 'a custom blank node labeller returns valid BLANK_NODE_LABEL text'],
+    explanation='round-trip theorems for the four token kinds over all strings and both ASCII modes; model = implementation for the four formatters and four scanners; end-to-end encode/decode/compare over graphs x configurations',
+    level_text='Proof (partial): token-level round trip for every local name the encoder accepts, every string, every IRI reference (plain and ASCII) and every shorthand (C02_prefixed_name_roundtrip, C02_string_roundtrip, C02_iriref_roundtrip, C02_shorthand_roundtrip); document structure and configuration space by exploration with an isomorphism oracle.',
+    level_note='Fixes made while building this check: prefixed names with a local part that has no prefixed-name form (leading U+00B7/combining/"-", U+00D7 percent-encoded to the wrong octet), numeric/boolean shorthands for lexical forms which read back as another datatype ("5"^^xsd:decimal, xsd:long, "INF", "+1."), rdf:type rdf:List dropped by the list syntax.',
+)
+
+PROPS['C08'] = dict(
+    families=[dict(name='c08-turtle', quick=12000, thorough=600000), dict(name='c02-tokens', quick=20000, thorough=800000)],
+    slice=40,
+    rule='documents drawn production by production from the Turtle 1.1 / TriG 1.1 grammars by a writer which computes the denoted dataset independently (prefix/base state incl. redefinition and relative namespace IRIs, document-scoped blank node labels, collections, nested blank node property lists as subject and object, "a", object and predicate lists with repeated and trailing ";", four string styles with ECHAR/UCHAR/raw newlines/inner quotes, numeric and boolean shorthands, PN_LOCAL with escapes/PLX/colons/dots/non-ASCII, '
+         'IRIREF with UCHAR, relative references of all RFC 3986 kinds, @prefix/@base/PREFIX/BASE in any case, GRAPH/bare/default graph blocks with and without final ".", comments and white space between any two tokens, name-like token directly before "."), with and without a default base; decoded dataset compared up to blank node renaming (language tags case-insensitively). ' + _TTL_TOK,
+    trusted_base=['the harness\' Turtle/TriG writer (ttlgen.go) and its denotation (net/url for reference resolution, restricted to references it does not rewrite)',
+                  'model/TurtleTok.v for the terminal productions'],
+    assumptions=['the non-terminal structure of the decoders (statement, predicateObjectList, collection, graph block state machines) has no Gallina model: explored by the writer, not proved',
+                 'long strings are covered by the writer and by the string correspondence, not by the every-spelling theorem'],
+    explanation='every-spelling theorems for IRIREF, short strings, PN_LOCAL and numeric tokens in the decoder scanner models; scanners = implementation on stress inputs; grammar-directed documents with independently computed denotation for the rest',
+    level_text='Proof (partial): for the terminal productions, every spelling is decoded to what it denotes (C08_iriref_every_spelling, C08_short_string_every_spelling, C08_local_name_every_spelling, C08_numeric_every_token); productions above the token level by grammar-directed exploration with a denotation oracle.',
+    level_note='Fix made while building this check: "[ :p :o ] :q :r ; :s :t ." (predicate list continued after a blank node property list subject) was rejected by both decoders.',
+)
